@@ -227,21 +227,62 @@ func c07CheckSeq(c *Ctx, ms []c07Mod) {
 	c.Direct("ties-delete-then-add", ties, ms)
 }
 
-// c07CheckPositions: every element is of an allowed kind at an allowed position, judged with
-// the implementation's own Lookup on freshly built copies of the documents.
+// c07WireLookup resolves a flatten-style path on a wire document (independent of dom.Lookup).
+func c07WireLookup(w W, path string) (W, bool) {
+	cur := w
+	for _, comp := range strings.Split(path, ".") {
+		name := comp
+		var idx []int
+		if i := strings.Index(comp, "["); i >= 0 {
+			name = comp[:i]
+			for _, g := range strings.Split(strings.TrimSuffix(comp[i+1:], "]"), "][") {
+				n := 0
+				if g == "" {
+					return nil, false
+				}
+				for _, ch := range g {
+					if ch < '0' || ch > '9' {
+						return nil, false
+					}
+					n = n*10 + int(ch-'0')
+				}
+				idx = append(idx, n)
+			}
+		}
+		c, ok := wireCont(cur)
+		if !ok {
+			return nil, false
+		}
+		if cur, ok = c[name]; !ok {
+			return nil, false
+		}
+		for _, i := range idx {
+			l, ok := cur.([]any)
+			if !ok || i >= len(l) {
+				return nil, false
+			}
+			cur = l[i]
+		}
+	}
+	return cur, true
+}
+
+// c07CheckPositions: every element is of an allowed kind at an allowed position, judged on the
+// wire documents with a resolver of the harness's own.
 func c07CheckPositions(c *Ctx, p c07Pair, ms []c07Mod) {
-	l, r := wireContainer(p.L), wireContainer(p.R)
-	leafIs := func(n dom.Node, w W) bool {
-		return n != nil && n.IsLeaf() && canon(scalarWire(n.(dom.Leaf).Value())) == canon(w)
+	leafIs := func(doc W, path string, w W) bool {
+		n, ok := c07WireLookup(doc, path)
+		return ok && isWireLeaf(n) && canon(n) == canon(w)
 	}
 	for i, m := range ms {
 		switch m.Ty {
 		case "Delete":
 			// a key only the right has, or a differing list / kind-mismatch position (present on both sides)
-			c.Direct("delete-at-position-present-in-right", r.Lookup(m.Path) != nil, m)
+			_, ok := c07WireLookup(p.R, m.Path)
+			c.Direct("delete-at-position-present-in-right", ok, m)
 		case "Add":
 			// a leaf of the left document, or (kind mismatch) of the right node
-			inL, inR := leafIs(l.Lookup(m.Path), m.Value), leafIs(r.Lookup(m.Path), m.Value)
+			inL, inR := leafIs(p.L, m.Path, m.Value), leafIs(p.R, m.Path, m.Value)
 			c.Direct("add-is-a-leaf-of-left-or-of-mismatching-right-node", inL || inR, m)
 			if !inL && inR {
 				// only legitimate below (or at) a Delete that precedes it
@@ -254,7 +295,7 @@ func c07CheckPositions(c *Ctx, p c07Pair, ms []c07Mod) {
 				c.Direct("right-node-add-follows-its-delete", found, m)
 			}
 		case "Change":
-			ok := leafIs(l.Lookup(m.Path), m.Old) && leafIs(r.Lookup(m.Path), m.Value) && canon(m.Old) != canon(m.Value)
+			ok := leafIs(p.L, m.Path, m.Old) && leafIs(p.R, m.Path, m.Value) && canon(m.Old) != canon(m.Value)
 			c.Direct("change-carries-both-differing-values", ok, m)
 		default:
 			c.Direct("modification-type-known", false, m)
